@@ -152,6 +152,9 @@ func mkConfigs(set string) []mkConfig {
 		}
 	case "c03":
 		out = append(out, mkConfig{Backend: "mem", CapClass: "ample", RootType: "state"})
+		// trees without a write log (how the consensus layer creates its state trees): the pending-write bookkeeping that
+		// RemoveExisting and the overlays consult is then maintained on another path
+		out = append(out, mkConfig{Backend: "mem", CapClass: "ample", NoWLog: true, RootType: "state"})
 		for _, be := range []string{"badger", "pathbadger"} {
 			out = append(out,
 				mkConfig{Backend: be, CapClass: "ample", RootType: "state"},
@@ -159,8 +162,10 @@ func mkConfigs(set string) []mkConfig {
 				mkConfig{Backend: be, CapClass: "ample", ValueCap: 1, RootType: "state"},
 			)
 		}
+		out = append(out, mkConfig{Backend: "pathbadger", CapClass: "ample", NoWLog: true, RootType: "state"})
 	case "c03nv":
 		out = append(out, mkConfig{Backend: "mem", CapClass: "ample", RootType: "state"})
+		out = append(out, mkConfig{Backend: "mem", CapClass: "ample", NoWLog: true, RootType: "state"})
 		for _, be := range []string{"badger", "pathbadger"} {
 			out = append(out,
 				mkConfig{Backend: be, CapClass: "ample", RootType: "state"},
